@@ -41,6 +41,34 @@ class RecTerm:
     def __str__(self):
         return self.text
 
+    # rdflib terms are str subclasses: the str interface is delegated to the (symbolic) text
+    def __len__(self):
+        return len(self.text)
+
+    def __getitem__(self, i):
+        return self.text[i]
+
+    def __iter__(self):
+        return iter(self.text)
+
+    def __contains__(self, x):
+        return x in self.text
+
+    def __add__(self, other):
+        return self.text + (other.text if isinstance(other, RecTerm) else other)
+
+    def __radd__(self, other):
+        return other + self.text
+
+    def __getattr__(self, name):
+        if name.startswith("__") or name in ("text", "datatype", "language"):
+            raise AttributeError(name)
+        return getattr(self.text, name)
+
+    def __format__(self, spec):
+        # f"{term}" on a str-based term is its text (object.__format__ would realise the symbolic text)
+        return self.text
+
     def __bool__(self):
         # rdflib terms are str subclasses: a term with empty text is falsy
         if len(self.text) > 0:
